@@ -1040,6 +1040,9 @@ func parse_process_loop(tokens []*Token, index int) (AstProcessStatement, int, e
 
 func parse_process_expression(tokens []*Token, index int) (AstProcessExpression, int, error) {
 	exprTokens, next_index := getProcessExpressionTokens(tokens, index)
+	if len(exprTokens) == 0 {
+		return nil, index, NewParseError(tokens[index], "Unexpected token. Expected an expression.")
+	}
 	expr, fail_index, err := parse_expr_pratt(exprTokens, 0, 0)
 	if err != nil {
 		return nil, index + fail_index, err
@@ -1048,6 +1051,9 @@ func parse_process_expression(tokens []*Token, index int) (AstProcessExpression,
 }
 
 func parse_expr_pratt(tokens []*Token, index int, minPrecedence int) (AstProcessExpression, int, error) {
+	if index >= len(tokens) {
+		return nil, index, NewParseError(tokens[len(tokens)-1], "Unexpected end of expression. Expected an operand.")
+	}
 	token_index := index + 1
 	var lhs AstProcessExpression
 	if tokens[index].TokenType == STRING {
@@ -1069,8 +1075,8 @@ func parse_expr_pratt(tokens []*Token, index int, minPrecedence int) (AstProcess
 		if err != nil {
 			return nil, next_index, err
 		}
-		if tokens[next_index].TokenType != CLOSEPAREN {
-			return nil, next_index, err
+		if next_index >= len(tokens) || tokens[next_index].TokenType != CLOSEPAREN {
+			return nil, next_index, NewParseError(tokens[len(tokens)-1], "Unexpected end of expression. Expected ')'.")
 		}
 		token_index = next_index + 1
 		lhs = subexpr
@@ -1113,7 +1119,7 @@ func getProcessExpressionTokens(tokens []*Token, index int) ([]*Token, int) {
 	exprTokens := []*Token{}
 	token_index := index
 	for token_index < len(tokens) {
-		if isProcessExprEnd(tokens[token_index].TokenType) {
+		if isProcessExprEnd(tokens[token_index].TokenType) || tokens[token_index].TokenType == EOF {
 			break
 		} else if tokens[token_index].TokenType == WS {
 			token_index += 1
